@@ -504,14 +504,14 @@ pub fn run_c14(tier: &str) -> Outcome {
     let full_ids = [PId::Lit(0), PId::Lit(1), PId::Lit(2), PId::Var(0), PId::Var(1)];
     let small_ids = [PId::Lit(0), PId::Lit(1), PId::Var(0)];
     let mut progs: Vec<(Vec<PCmd>, bool)> = vec![]; // (program, render with every style?)
-    let maxlen = if quick { 3 } else { 4 };
+    let maxlen = if quick { 3 } else { 5 };
     for len in 1..=maxlen {
         for p in programs(len, &full_ids, 3, 3) {
             progs.push((p, len <= 2));
         }
     }
     // longer programs over a reduced alphabet
-    let (rl_from, rl_to) = if quick { (4, 4) } else { (5, 6) };
+    let (rl_from, rl_to) = if quick { (4, 4) } else { (6, 8) };
     for len in rl_from..=rl_to {
         for p in programs(len, &[PId::Lit(0), PId::Var(0)], 1, 1) {
             progs.push((p, false));
@@ -546,7 +546,7 @@ pub fn run_c14(tier: &str) -> Outcome {
     // single-fault corruption
     let fault_progs: Vec<Vec<PCmd>> = {
         let mut v = vec![];
-        for len in 1..=(if quick { 2 } else { 3 }) {
+        for len in 1..=(if quick { 2 } else { 4 }) {
             v.extend(programs(len, &small_ids, 2, 2));
         }
         v
@@ -579,7 +579,7 @@ pub fn run_c14(tier: &str) -> Outcome {
     let rule = format!(
         "PROGGEN: every program of <= {maxlen} ADD/BIND/PUT commands over ids {{0,1,2,$a,$b}}, labels {{foo, α1, x}}, data {{1, 8, 9 bytes}} (and of {rl_from}..={rl_to} commands over {{0,$a}}) whose direct execution respects the graph preconditions; each rendered with a menu of 13 legal formattings, programs of <= 2 commands with the full product of 1728 (whitespace, spaces before the parenthesis, ν-prefixes, $ν1-style names, hex case/dashes/blanks/line breaks inside the literal, comments containing ; ( #, empty commands, final semicolon); oracle: complete internal state after deploy_to == state after the same calls made directly, count == number of commands. PLUS every single-character deletion/replacement/insertion ({} fault characters) at every position of every program of <= {} commands over a reduced alphabet in two renderings, judged by a conservative reference parser: well-formed -> equals its own direct calls; definitely malformed at command i -> Err, no panic, graph == commands 0..i; grey -> no demand. distinct_nontrivial = texts with a settled class",
         FAULTS.len(),
-        if quick { 2 } else { 3 }
+        if quick { 2 } else { 4 }
     );
     super::outcome("C14", tier, "exploration", &rule, acc, true, json!({}), t0.elapsed().as_secs_f64(), vec!["grey zone (not judged): extra or empty arguments, `+5`, comment without terminating newline, tab/newline between command name and parenthesis, ids beyond the capacity, scripts whose direct calls break a graph precondition".to_string()], machinery)
 }
